@@ -1,513 +1,3 @@
-//! C01 — compiled scripts compute the language-defined result.
-//!
-//! Bounded-exhaustive program enumeration (E-PROG): every program of the
-//! families below is compiled through the public pipeline and run on every
-//! boundary input vector; result (and host-call log) must equal the reference
-//! interpreter `c00ref`. Cases the language leaves open (division by zero,
-//! MIN / -1) are skipped and counted.
-
-use c00ref::call::get_fn2;
-use c00ref::gen_expr::*;
-use c00ref::*;
-use vcore::{Cfg, Check, Cx, Finding, Meta, SUB_SETUP, Tier, Value, Violation, json};
-
-const CHUNK: usize = 400;
-
-/// A family of programs with a common signature `fn f(a: T, b: T) -> R`.
-#[derive(Clone, Debug)]
-struct Family {
-    name: String,
-    t: Ty,
-    ret: Ty,
-    kind: Kind,
-}
-
-#[derive(Clone, Debug)]
-enum Kind {
-    /// numeric expressions of depth <= d over {a, b, n_lits literals}
-    Num { depth: u32, lits: usize },
-    /// comparisons of numeric expressions (depth d_num), combined d_bool levels
-    Bools { d_num: u32, d_bool: u32, lits: usize },
-    /// depth-2 numeric expressions with one leaf operand at the root
-    NumOneDeep,
-    /// comparisons of a depth-1 numeric expression with a leaf
-    CmpOneDeep,
-    /// depth-1 programs over {a, b} run on ALL operand pairs (8/16-bit truth tables)
-    Table,
-    /// control-flow skeletons with `size` constructs, nesting <= nest
-    Skel { size: usize, nest: usize },
-    /// hand-written templates: call shapes, recursion, literal typing contexts
-    Templates,
-}
-
-fn num_tys() -> Vec<Ty> {
-    let mut v: Vec<Ty> = INT_TYS.iter().map(|t| Ty::Int(*t)).collect();
-    v.push(Ty::F32);
-    v.push(Ty::F64);
-    v
-}
-
-fn families(tier: Tier) -> Vec<Family> {
-    let mut v = vec![];
-    // simplest first: truth tables, literal-rich depth 1, then depth 2, then control flow
-    for t in [Ty::Int(IntTy::U8), Ty::Int(IntTy::I8)] {
-        v.push(Family { name: format!("table/{}", t.print()), t: t.clone(), ret: t.clone(), kind: Kind::Table });
-        v.push(Family { name: format!("table-cmp/{}", t.print()), t: t.clone(), ret: Ty::Bool, kind: Kind::Table });
-    }
-    if tier == Tier::Thorough {
-        for t in [Ty::Int(IntTy::U16), Ty::Int(IntTy::I16)] {
-            v.push(Family { name: format!("table-cmp/{}", t.print()), t: t.clone(), ret: Ty::Bool, kind: Kind::Table });
-        }
-    }
-    for t in num_tys() {
-        v.push(Family {
-            name: format!("num-d1-lits/{}", t.print()),
-            t: t.clone(),
-            ret: t.clone(),
-            kind: Kind::Num { depth: 1, lits: 6 },
-        });
-    }
-    for t in num_tys() {
-        v.push(Family {
-            name: format!("bool-d0/{}", t.print()),
-            t: t.clone(),
-            ret: Ty::Bool,
-            kind: Kind::Bools { d_num: 0, d_bool: 1, lits: 1 },
-        });
-    }
-    v.push(Family { name: "templates".into(), t: Ty::Int(IntTy::I32), ret: Ty::Int(IntTy::I32), kind: Kind::Templates });
-    for t in num_tys() {
-        v.push(Family {
-            name: format!("num-d2/{}", t.print()),
-            t: t.clone(),
-            ret: t.clone(),
-            kind: match tier {
-                Tier::Quick => Kind::NumOneDeep,
-                Tier::Thorough => Kind::Num { depth: 2, lits: 1 },
-            },
-        });
-    }
-    for t in num_tys() {
-        v.push(Family {
-            name: format!("cmp-d1/{}", t.print()),
-            t: t.clone(),
-            ret: Ty::Bool,
-            kind: match tier {
-                Tier::Quick => Kind::CmpOneDeep,
-                Tier::Thorough => Kind::Bools { d_num: 1, d_bool: 0, lits: 1 },
-            },
-        });
-    }
-    for size in 1..=tier.pick(3, 4) {
-        for it in INT_TYS {
-            // quick: every width sees sizes 1-2; size 3 on a rotating pair of widths plus i32
-            let t = Ty::Int(it);
-            v.push(Family {
-                name: format!("skel-{size}/{}", t.print()),
-                t: t.clone(),
-                ret: t.clone(),
-                kind: Kind::Skel { size, nest: if size >= 4 { 2 } else { tier.pick(2, 3) } },
-            });
-        }
-    }
-    v
-}
-
-/// the programs of a family (deterministic order)
-fn programs(f: &Family, cfg: &Cfg) -> Vec<Program> {
-    let single = |body: E| Program { records: vec![], enums: vec![], funcs: vec![fn2("f", &f.t, &f.ret, body)] };
-    match &f.kind {
-        Kind::Num { depth, lits } => {
-            let lv = leaves(&f.t, &literals(&f.t, *lits));
-            num_exprs(&f.t, *depth, &lv).into_iter().map(single).collect()
-        }
-        Kind::Bools { d_num, d_bool, lits } => {
-            let lv = leaves(&f.t, &literals(&f.t, *lits));
-            bool_exprs(&f.t, *d_num, *d_bool, &lv).into_iter().map(single).collect()
-        }
-        Kind::NumOneDeep => {
-            let lv = leaves(&f.t, &literals(&f.t, 1));
-            num_exprs_one_deep(&f.t, &lv).into_iter().map(single).collect()
-        }
-        Kind::CmpOneDeep => {
-            let lv = leaves(&f.t, &literals(&f.t, 1));
-            cmp_exprs_one_deep(&f.t, &lv).into_iter().map(single).collect()
-        }
-        Kind::Table => {
-            let lv = vec![var("a"), var("b")];
-            let es = if f.ret == Ty::Bool { bool_exprs(&f.t, 0, 0, &lv) } else { num_exprs(&f.t, 1, &lv) };
-            es.into_iter().map(single).collect()
-        }
-        Kind::Skel { size, nest } => {
-            let Ty::Int(it) = f.t else { unreachable!() };
-            let all = bodies(*size, *nest);
-            // quick tier: size-3 skeletons are split over the 8 widths (each body
-            // runs on the width picked by its index + seed; i32 sees all of them)
-            let all: Vec<_> = if *size >= cfg.tier.pick(3, 4) && it != IntTy::I32 {
-                let my = INT_TYS.iter().position(|x| *x == it).unwrap();
-                all.into_iter()
-                    .enumerate()
-                    .filter(|(i, _)| (i + cfg.seed as usize) % INT_TYS.len() == my)
-                    .map(|(_, b)| b)
-                    .collect()
-            } else {
-                all
-            };
-            all.iter().map(|b| skeleton_program(it, b)).collect()
-        }
-        Kind::Templates => vec![Program::default(); templates::all().len()],
-    }
-}
-
-mod templates;
-
-fn family_inputs(f: &Family, tier: Tier) -> Vec<(V, V)> {
-    let one: Vec<V> = match (&f.kind, &f.t) {
-        (Kind::Table, Ty::Int(it)) => (it.min_val()..=it.max_val()).map(|v| V::Int(*it, v)).collect(),
-        (Kind::Skel { .. }, Ty::Int(it)) => {
-            // control flow is steered by comparisons of a and b and by b % 3
-            let mut v: Vec<i128> = vec![0, 1, 2, 3, 4, 5, it.max_val(), it.max_val() - 1, it.min_val(), it.min_val() + 1];
-            if it.signed() {
-                v.extend([-1, -2, -3]);
-            }
-            v.sort();
-            v.dedup();
-            v.into_iter().map(|x| V::Int(*it, x)).collect()
-        }
-        _ => inputs(&f.t),
-    };
-    let _ = tier;
-    let mut out = vec![];
-    for a in &one {
-        for b in &one {
-            out.push((a.clone(), b.clone()));
-        }
-    }
-    out
-}
-
-fn unit_table(cfg: &Cfg) -> &'static Vec<(usize, usize)> {
-    static TABLE: std::sync::OnceLock<Vec<(usize, usize)>> = std::sync::OnceLock::new();
-    TABLE.get_or_init(|| unit_table_compute(cfg))
-}
-
-thread_local! {
-    static LAST: std::cell::RefCell<Option<(usize, std::rc::Rc<Vec<Program>>)>> = const { std::cell::RefCell::new(None) };
-}
-
-/// programs of family `fi`, cached (consecutive units mostly share the family)
-fn family_programs(fi: usize, cfg: &Cfg) -> std::rc::Rc<Vec<Program>> {
-    LAST.with(|l| {
-        let mut l = l.borrow_mut();
-        if let Some((i, p)) = &*l {
-            if *i == fi {
-                return p.clone();
-            }
-        }
-        let p = std::rc::Rc::new(programs(&families(cfg.tier)[fi], cfg));
-        *l = Some((fi, p.clone()));
-        p
-    })
-}
-
-fn unit_table_compute(cfg: &Cfg) -> Vec<(usize, usize)> {
-    // (family index, chunk index)
-    let fams = families(cfg.tier);
-    let mut v = vec![];
-    for (fi, f) in fams.iter().enumerate() {
-        let n = programs(f, cfg).len();
-        let chunk = chunk_of(f);
-        for c in 0..n.div_ceil(chunk) {
-            v.push((fi, c));
-        }
-    }
-    v
-}
-
-fn chunk_of(f: &Family) -> usize {
-    match f.kind {
-        Kind::Table => 4,
-        Kind::Templates => 64,
-        _ => CHUNK,
-    }
-}
-
-fn run_chunk(f: &Family, progs: &[Program], base: usize, cx: &mut Cx) {
-    if !cx.case(SUB_SETUP) {
-        return;
-    }
-    let rt = host::runtime();
-    // one package for the whole chunk; helpers (if any) are shared by name
-    let mut text = String::new();
-    let mut helper_done = false;
-    for (i, p) in progs.iter().enumerate() {
-        let q = rename_main(p, &format!("p{i}_"));
-        for func in &q.funcs {
-            let is_helper = !func.name.starts_with(&format!("p{i}_"));
-            if is_helper {
-                if helper_done {
-                    continue;
-                }
-            }
-            text.push_str(&print_func(func));
-        }
-        if q.funcs.len() > 1 {
-            helper_done = true;
-        }
-        if i == 0 {
-            for r in &q.records {
-                let _ = r;
-            }
-        }
-    }
-    let mut pkg = match host::compile(&rt, &text) {
-        Ok(p) => Some(p),
-        Err(_) => None,
-    };
-    let inputs = family_inputs(f, cx.cfg.tier);
-    for (i, p) in progs.iter().enumerate() {
-        let src = print_program(p);
-        // batch failed: compile this program alone to find the culprit
-        let mut single;
-        let (pk, fname) = match pkg.as_mut() {
-            Some(pk) => (pk, format!("p{i}_f")),
-            None => {
-                if !cx.case(((i as u64) << 20) | 0xFFFFF) {
-                    continue;
-                }
-                match host::compile(&rt, &src) {
-                    Ok(p1) => {
-                        single = p1;
-                        (&mut single, "f".to_string())
-                    }
-                    Err(e) => {
-                        cx.violation(
-                            match e {
-                                host::CompileFail::Panic(_) => "compile-panic",
-                                host::CompileFail::Report(_) => "rejected",
-                            },
-                            (i as u64) << 20,
-                            json!({"family": f.name, "program": src, "index": base + i}),
-                            json!("a well-typed program compiles"),
-                            json!(format!("{e:?}")),
-                        );
-                        continue;
-                    }
-                }
-            }
-        };
-        let func = match get_fn2(pk, &fname, &f.t, &f.ret) {
-            Ok(func) => func,
-            Err(e) => {
-                cx.violation("get_function", (i as u64) << 20, json!({"family": f.name, "program": src}), json!("Ok"), json!(e));
-                continue;
-            }
-        };
-        cx.states(1);
-        let mut distinct = std::collections::HashSet::new();
-        let mut reported = false;
-        for (k, (a, b)) in inputs.iter().enumerate() {
-            let expect = eval_fn(p, "f", &[a.clone(), b.clone()]);
-            let expect = match expect {
-                Ok(o) => o,
-                Err(Stop::Unspecified(_)) | Err(Stop::Fuel) => {
-                    cx.unspecified(1);
-                    continue;
-                }
-                Err(Stop::Stuck(m)) => {
-                    if !reported {
-                        cx.violation("model-stuck", (i as u64) << 20, json!({"family": f.name, "program": src}), json!("model evaluates"), json!(m));
-                        reported = true;
-                    }
-                    continue;
-                }
-                Err(Stop::Return(_)) => unreachable!(),
-            };
-            let sub = ((i as u64) << 20) | k as u64;
-            if !cx.case(sub) {
-                continue;
-            }
-            host::clear_log();
-            let got = func(a, b);
-            let log = host::take_log();
-            cx.transitions(1);
-            cx.validated(1);
-            distinct.insert(got.show());
-            if (!got.obs_eq(&expect.value) || log != expect.log) && !reported {
-                reported = true;
-                cx.violation(
-                    "mismatch",
-                    sub,
-                    json!({"family": f.name, "program": src, "a": a.show(), "b": b.show(), "index": base + i}),
-                    json!({"value": expect.value.show(), "log": format!("{:?}", expect.log)}),
-                    json!({"value": got.show(), "log": format!("{log:?}")}),
-                );
-            }
-        }
-        if distinct.len() > 1 {
-            cx.nontrivial(vcore::util::fnv_str(&src));
-        }
-        let mut h = vcore::util::fnv_str(&f.t.print());
-        let mut ds: Vec<_> = distinct.into_iter().collect();
-        ds.sort();
-        for d in ds.iter().take(8) {
-            h = vcore::util::mix(h, vcore::util::fnv_str(d));
-        }
-        cx.outcome(h);
-        if i == 0 {
-            cx.sample(json!({"family": f.name, "program": src, "input_vectors": inputs.len()}));
-        }
-    }
-}
-
-fn template_inputs() -> Vec<i32> {
-    vec![i32::MIN, i32::MIN + 1, -9, -8, -7, -3, -2, -1, 0, 1, 2, 3, 4, 5, 6, 7, 8, 9, 10, 65535, 65536, i32::MAX - 1, i32::MAX]
-}
-
-fn run_templates(lo: usize, hi: usize, cx: &mut Cx) {
-    if !cx.case(SUB_SETUP) {
-        return;
-    }
-    let rt = host::runtime();
-    let ts = templates::all();
-    let ins = template_inputs();
-    for i in lo..hi {
-        let t = &ts[i];
-        let li = (i - lo) as u64;
-        if !cx.case((li << 20) | 0xFFFFF) {
-            continue;
-        }
-        let mut pkg = match host::compile(&rt, &t.src) {
-            Ok(p) => p,
-            Err(e) => {
-                cx.violation(
-                    match e {
-                        host::CompileFail::Panic(_) => "compile-panic",
-                        host::CompileFail::Report(_) => "rejected",
-                    },
-                    li << 20,
-                    json!({"family": "templates", "template": t.name, "program": t.src}),
-                    json!("a well-typed program compiles"),
-                    json!(format!("{e:?}")),
-                );
-                continue;
-            }
-        };
-        let f: roto::TypedFunc<roto::NoCtx, fn(i32, i32) -> i32> = match pkg.get_function("f") {
-            Ok(f) => f,
-            Err(e) => {
-                cx.violation("get_function", li << 20, json!({"template": t.name, "program": t.src}), json!("Ok"), json!(e.to_string()));
-                continue;
-            }
-        };
-        cx.states(1);
-        let mut distinct = std::collections::HashSet::new();
-        let mut reported = false;
-        for (ka, a) in ins.iter().enumerate() {
-            for (kb, b) in ins.iter().enumerate() {
-                let Some(want) = (t.expect)(*a, *b) else {
-                    cx.unspecified(1);
-                    continue;
-                };
-                let sub = (li << 20) | (ka * ins.len() + kb) as u64;
-                if !cx.case(sub) {
-                    continue;
-                }
-                let got = f.call(*a, *b);
-                cx.transitions(1);
-                cx.validated(1);
-                distinct.insert(got);
-                if got != want && !reported {
-                    reported = true;
-                    cx.violation(
-                        "mismatch",
-                        sub,
-                        json!({"family": "templates", "template": t.name, "program": t.src, "a": a, "b": b}),
-                        json!(want),
-                        json!(got),
-                    );
-                }
-            }
-        }
-        if distinct.len() > 1 {
-            cx.nontrivial(vcore::util::fnv_str(&t.src));
-        }
-        cx.outcome(vcore::util::mix(vcore::util::fnv_str(&t.name), distinct.len() as u64));
-        if i == lo {
-            cx.sample(json!({"family": "templates", "template": t.name, "program": t.src}));
-        }
-    }
-}
-
-/// prefix only the entry function `f` (helpers keep their names and are
-/// shared by all programs of a package; they are identical for one family)
-fn rename_main(p: &Program, prefix: &str) -> Program {
-    rename_only(p, &["f".to_string()], prefix)
-}
-
-struct C01;
-
-impl Check for C01 {
-    fn id(&self) -> &'static str {
-        "C01"
-    }
-    fn units(&self, cfg: &Cfg) -> usize {
-        unit_table(cfg).len()
-    }
-    fn case_timeout_s(&self, cfg: &Cfg) -> f64 {
-        cfg.tier.pick(60.0, 300.0)
-    }
-    fn run_unit(&self, unit: usize, cx: &mut Cx) {
-        cx.case(SUB_SETUP);
-        let (fi, c) = unit_table(&cx.cfg)[unit];
-        let f = families(cx.cfg.tier)[fi].clone();
-        let all = family_programs(fi, &cx.cfg);
-        let chunk = chunk_of(&f);
-        let lo = c * chunk;
-        let hi = (lo + chunk).min(all.len());
-        if let Kind::Templates = f.kind {
-            run_templates(lo, hi, cx);
-            return;
-        }
-        run_chunk(&f, &all[lo..hi], lo, cx);
-    }
-    fn describe(&self, cfg: &Cfg, unit: usize, sub: u64) -> Value {
-        let (fi, c) = unit_table(cfg)[unit];
-        let f = families(cfg.tier)[fi].clone();
-        let all = family_programs(fi, cfg);
-        let chunk = chunk_of(&f);
-        if sub == SUB_SETUP {
-            return json!({"family": f.name, "chunk": c, "phase": "batch compile"});
-        }
-        let i = c * chunk + (sub >> 20) as usize;
-        let k = (sub & 0xFFFFF) as usize;
-        if let Kind::Templates = f.kind {
-            let ts = templates::all();
-            return json!({"family": "templates", "template": ts.get(i).map(|t| t.name.clone()),
-                          "program": ts.get(i).map(|t| t.src.clone()), "input_index": k});
-        }
-        let inputs = family_inputs(&f, cfg.tier);
-        let (a, b) = inputs.get(k).map(|(a, b)| (a.show(), b.show())).unwrap_or_default();
-        json!({"family": f.name, "program": all.get(i).map(print_program), "a": a, "b": b, "index": i})
-    }
-    fn matches(&self, _f: &Finding, _v: &Violation) -> bool {
-        false
-    }
-    fn meta(&self, cfg: &Cfg) -> Meta {
-        let fams = families(cfg.tier);
-        Meta {
-            rule: "all programs of each family (numeric expressions over all operators to depth 2, comparison/logic expressions, complete 8-bit truth tables, control-flow skeletons of all constructs up to the size bound, call/recursion/literal-typing templates) x the boundary input cross product; non-trivial = a program whose result differs between at least two input vectors".into(),
-            assumptions: vec![
-                "x86-64 Cranelift backend".into(),
-                "reference interpreter c00ref (wrapping two's-complement, IEEE-754, left-to-right, short-circuit)".into(),
-            ],
-            bounds: json!({"families": fams.iter().map(|f| f.name.clone()).collect::<Vec<_>>()}),
-            states_are: "distinct generated programs".into(),
-            transitions_are: "calls of a compiled program on one input vector, each compared with the reference".into(),
-        }
-    }
-}
-
 fn main() {
-    vcore::main(&C01)
+    c01::run()
 }
